@@ -17,7 +17,7 @@ BUDGET = {"quick": 50, "thorough": 900}
 RULE = (
     "a worker with run_health_check_server=True (seeded address/port/endpoint, 1-3 queues, a stream of jobs) on the in-memory "
     "broker; the server runs on the stdlib asyncio Server class over simulated TCP. Seeded HTTP clients: well-formed GET on the "
-    "endpoint, other paths, other methods, truncated heads, binary, 1 MiB bodies, the same Worker run a second time (port opens again, 200/404), GETs during the graceful shutdown while an actor still runs (after a consumer failure: still 503), a valid request split across 2-5 segments (equal parts or seeded cut positions, biased to the last five bytes), "
+    "endpoint (and, in 6% of the runs, a worker with no actors at all whose run() returns at once: the port must be closed afterwards), other paths, other methods, truncated heads, binary, 1 MiB bodies, the same Worker run a second time (port opens again, 200/404), GETs during the graceful shutdown while an actor still runs (after a consumer failure: still 503), a valid request split across 2-5 segments (equal parts or seeded cut positions, biased to the last five bytes), "
     "1-50 simultaneous connections, connections left idle; a consumer failure (consume() raises) at a seeded call, also while "
     "connections are open; connects before run(), during it and after it returned. Oracle: with H(t) = OK until the first "
     "consumer failure and UNHEALTHY after, a complete single-segment GET on the endpoint arriving at t gets 200/503 per H(t) "
@@ -32,6 +32,13 @@ ASSUMPTIONS = ["asyncio.base_events.Server of CPython 3.12.1 (wait_closed() wait
 
 def gen(rng, broker, tier):
     endpoint = rng.choice(["/healthz", "/health", "/h/c", "/"])
+    if rng.random() < 0.06:
+        # a worker that has nothing to run (no actors registered): run() returns at once - and the port with it
+        return {"mode": "no-actors", "endpoint": endpoint, "port": rng.choice([8080, 1, 65535, 10101]),
+                "address": rng.choice(["0.0.0.0", "127.0.0.1", "sim-host"]), "clients": [], "jobs": [],
+                "probes_us": sorted(rng.choice([0, 1000, 300_000, 1_000_000, 1_500_000, 5_000_000]) for _ in range(3)),
+                "routers": rng.choice([0, 1, 2]), "twice": rng.random() < 0.3,
+                "knobs": {"step_cost": rng.choice([0, 0, 1]), "net": {"lat_lo": 50, "lat_hi": 300, "frag_p": 0}}}
     clients = []
     for i in range(rng.randint(1, 10)):
         kind = rng.choice(["get", "get", "get", "other-path", "post", "truncated", "binary", "big", "split", "idle", "burst", "mangled", "long-query",
@@ -79,7 +86,45 @@ class _Client(asyncio.Protocol):
             self.closed.set_result(exc)
 
 
+async def _no_actors(sim, sc, out):
+    r = env.repid
+    world = await World(sim, "mem", nodes=("w", "p"), buckets="none", knobs=sc.get("knobs")).setup()
+    V = out["violations"]
+    settings = r.HealthCheckServerSettings(address=sc["address"], port=sc["port"], endpoint_name=sc["endpoint"])
+    w = r.Worker(routers=[r.Router() for _ in range(sc["routers"])], graceful_shutdown_time=2.0, run_health_check_server=True,
+                 health_check_server_settings=settings, _connection=world.conn("w"))
+    for round_ in range(2 if sc.get("twice") else 1):
+        try:
+            await asyncio.wait_for(sim.loop.spawn("w", w.run()), timeout=10)
+        except asyncio.TimeoutError:
+            V.append(violation("no-return", "C20/mem/no-actors/run-did-not-return"))
+            return
+        except BaseException as exc:  # noqa: BLE001
+            if isinstance(exc, (kernel.SimAbort, KeyboardInterrupt, SystemExit)):
+                raise
+            V.append(violation("worker-died", f"C20/mem/no-actors/run-raised/{type(exc).__name__}", exc=repr(exc)[:200]))
+            return
+        t_ret = sim.clock.us
+        for at in sc["probes_us"]:
+            await asyncio.sleep(max(0, t_ret + at - sim.clock.us) / 1e6)
+            try:
+                tr, proto = await sim.loop.create_connection(_Client, sc["address"], sc["port"])
+            except ConnectionRefusedError:
+                probe(out, "port-closed-after-a-run-with-nothing-to-do")
+                continue
+            tr.write(b"GET " + sc["endpoint"].encode() + b" HTTP/1.1\r\nHost: x\r\n\r\n")
+            await asyncio.sleep(0.05)
+            V.append(violation("port-open-after-run", "C20/mem/no-actors/port-still-open-after-run-returned",
+                               after_us=sim.clock.us - t_ret, answer=proto.buf[:40].decode("latin1")))
+            tr.close()
+            return
+    out["nontrivial"] = True
+    out["states"].append(f"no-actors-{sc['routers']}")
+
+
 async def _main(sim, sc, out):
+    if sc.get("mode") == "no-actors":
+        return await _no_actors(sim, sc, out)
     r = env.repid
     world = await World(sim, "mem", nodes=("w", "p"), buckets="none", knobs=sc.get("knobs")).setup()
     conn = world.conn("w")
@@ -345,7 +390,11 @@ def run(sc):
     out = execute(_main, sc, step_cap=3_000_000, wall_s=120)
     if out["abort"]:
         out["violations"].append(violation("abort", f"C20/mem/abort-{out['abort']['kind']}", detail=out["abort"]["detail"]))
-    if not out["violations"] and not sc.get("no_http"):
+    # (with an injected consumer failure *and* loop steps that cost virtual time, which jobs are taken before the failure is a
+    # race between arrival instants and the count of consume() calls: the extra steps of the HTTP traffic shift it by
+    # microseconds, so the two runs are only comparable without that race)
+    racy = bool(sc.get("fail")) and sc.get("knobs", {}).get("step_cost", 0) != 0
+    if not out["violations"] and not sc.get("no_http") and sc.get("mode") != "no-actors" and not racy:
         twin = copy.deepcopy(sc)
         twin["no_http"] = True
         t = execute(_main, twin, step_cap=3_000_000, wall_s=120)
